@@ -224,7 +224,7 @@ func TestCheck(t *testing.T) {
 		fen, mv string
 		want    int
 	}{
-		{"1k1r4/1pp4p/p7/4p3/8/P5P1/1PP4P/2K1R3 w - - 0 1", "e1e5", 100},      // rook takes undefended pawn
+		{"1k1r4/1pp4p/p7/4p3/8/P5P1/1PP4P/2K1R3 w - - 0 1", "e1e5", 100},           // rook takes undefended pawn
 		{"1k1r3q/1ppn3p/p4b2/4p3/8/P2N2P1/1PP1R1BP/2K1Q3 w - - 0 1", "d3e5", -200}, // classic: knight takes defended pawn
 		{"4k3/8/8/3p4/4P3/8/8/4K3 w - - 0 1", "e4d5", 100},
 		{"4k3/8/2p5/3p4/4P3/8/8/4K3 w - - 0 1", "e4d5", 0},
